@@ -252,6 +252,24 @@ def tiny_closed_sets(k):
     return out
 
 
+def chain_masks(ks):
+    """Binary complete subgraph over {X,Y} plus a chain X^k -> X^(k-1)Z -> ... of c single-successor
+    vertices ending in a dead end: trimming removes exactly one vertex per round for c rounds, a
+    vanishing fraction of the 4^k vertices at higher orders."""
+    out = []
+    for k in ks:
+        for x, y, z in ((0, 1, 2), (3, 2, 0)):
+            X, Y, Z = O.NUC[x], O.NUC[y], O.NUC[z]
+            base = {O.idx(''.join(p)) for p in itertools.product(X + Y, repeat=k)}
+            for c in (1, 2, 3, 5):
+                chain, cur = set(), X * k
+                for _ in range(c):
+                    cur = cur[1:] + Z
+                    chain.add(O.idx(cur))
+                out.append((k, base | chain))
+    return out
+
+
 def filter_masks(kmin, kmax):
     """The experiment filters scaled to order k (reference predicate, no dsw)."""
     cut = ["AGCT", "GACGC", "CAGCAG", "GATATC", "GGTACC", "CTGCAG", "GAGCTC", "GTCGAC", "AGTACT", "ACTAGT", "GCATGC", "AGGCCT", "TCTAGA"]
@@ -333,6 +351,8 @@ def run(ctx):
         verts = {O.idx(''.join(p)) for p in itertools.product(O.NUC[a] + O.NUC[b], repeat=5)}
         fam.append((5, verts, (1, 2, 3)))
         fam.append((5, verts - {min(verts)}, (1, 2)))
+    for k, S in chain_masks((3, 5, 6, 7) if ctx.quick else (3, 4, 5, 6, 7, 8)):
+        fam.append((k, S, (1, 2)))
     for k in (4, 5, 6):
         for S in tiny_closed_sets(k):
             fam.append((k, S, (1, 2)))
